@@ -437,7 +437,8 @@ class AssignedFeatureCounter(AbstractCounter):
                 for line in f:
                     if line.startswith(self.STAT_LINE_PREFIXES): break
                     if line.startswith('#'):
-                        outf.write(line.replace("count", "TPM"))
+                        # only the value column of an ungrouped table is renamed, group names are copied as they are
+                        outf.write(line.replace("count", "TPM") if self.ignore_read_groups else line)
                         continue
                     fs = line.rstrip().split('\t')
                     if self.ignore_read_groups:
